@@ -33,8 +33,7 @@ const (
 	vMinRefresh = InflowMinRefresh
 	vFlowCode   = uint32(ErrCodeFlowControl)
 
-	sigResidue    = "batching-residue"
-	sigOverRefund = "over-refund-read-after-close"
+	sigResidue = "batching-residue"
 )
 
 func TestVerifC10(t *testing.T) { verifFlowRun(t, "c10") }
@@ -84,7 +83,6 @@ type vfConn struct {
 	configured int64
 	streamInit int64
 	conn       int64 // peer's view of the connection window
-	over       int64 // bytes read by handlers after closeStream
 	dead       bool
 	maxSid     uint32
 	streams    map[uint32]*vfStream
@@ -139,7 +137,7 @@ func (c *vfConn) collect(s *vfStream) {
 		c.o.Fail("", fmt.Sprintf("stream %d: handler was delivered %d bytes but only %d were within the advertised windows", s.id, s.delivered, s.bodyBytes))
 	}
 	if s.status == vsClosed && n > 0 {
-		c.over += int64(n)
+		// closeStream discards the unread body; bytes read afterwards would be refunded twice
 		c.o.Stat("branch:read-after-close")
 	}
 }
@@ -167,8 +165,8 @@ func (c *vfConn) drain() {
 				if c.conn > vMaxWindow {
 					c.o.Fail("", fmt.Sprintf("WINDOW_UPDATE(0,%d) lifts the connection window to %d > 2^31-1", f.Increment, c.conn))
 				}
-				if c.conn > c.configured+c.over {
-					c.o.Fail("", fmt.Sprintf("connection window %d above configured %d (+%d modelled over-refund)", c.conn, c.configured, c.over))
+				if c.conn > c.configured {
+					c.o.Fail("", fmt.Sprintf("WINDOW_UPDATE(0,%d) lifts the connection window to %d, above the configured %d (credit refunded twice)", f.Increment, c.conn, c.configured))
 				}
 			} else if s := c.streams[sid]; s != nil {
 				s.win += int64(f.Increment)
@@ -235,35 +233,27 @@ func (c *vfConn) residueCheck(where string) {
 		c.o.Stat("quiesce:dead-conn")
 		return
 	}
-	residue := c.configured + c.over - c.conn
+	residue := c.configured - c.conn
 	ok := residue >= 0 && (residue == 0 || (residue < vMinRefresh && residue < c.conn))
 	switch {
 	case !ok && residue < 0:
-		c.o.Fail("", fmt.Sprintf("%s: connection window %d is above configured %d + modelled over-refund %d", where, c.conn, c.configured, c.over))
+		c.o.Fail("", fmt.Sprintf("%s: connection window %d is above the configured %d", where, c.conn, c.configured))
 	case !ok:
-		c.o.Fail("", fmt.Sprintf("%s: %d bytes of connection-level credit were never returned (peer view %d, configured %d, over-refund %d)", where, residue, c.conn, c.configured, c.over))
-	}
-	// The two findings below belong to C10; the C11 check only counts them.
-	if ok && residue > 0 {
+		c.o.Fail("", fmt.Sprintf("%s: %d bytes of connection-level credit were never returned (peer view %d, configured %d)", where, residue, c.conn, c.configured))
+	case residue > 0:
 		c.o.Stat("quiesce:residue")
-	}
-	if c.over > 0 {
-		c.o.Stat("quiesce:over-refund")
-	}
-	if ok && residue == 0 && c.over == 0 {
+		// this finding belongs to C10; the C11 check only counts it
+		if c.mode == "c10" {
+			c.o.Fail(sigResidue, fmt.Sprintf("%s: peer's view %d is %d below the configured window %d: credit withheld by inflowMinRefresh batching", where, c.conn, residue, c.configured))
+		}
+	default:
 		c.o.Stat("quiesce:exact")
-	}
-	if ok && residue > 0 && c.mode == "c10" {
-		c.o.Fail(sigResidue, fmt.Sprintf("%s: peer's view %d is %d below the configured window %d: credit withheld by inflowMinRefresh batching", where, c.conn, residue, c.configured))
-	}
-	if c.over > 0 && c.mode == "c10" {
-		c.o.Fail(sigOverRefund, fmt.Sprintf("%s: %d body bytes read by a handler after closeStream were refunded twice; peer's view %d vs configured %d", where, c.over, c.conn, c.configured))
 	}
 	// white-box cross-check on the server's own counters
 	if c.st.sc != nil {
 		consumed := int64(c.st.sc.TestFlowControlConsumed())
-		if consumed != -c.over {
-			c.o.Fail("", fmt.Sprintf("%s: server counters: configured-(avail+unsent) = %d, expected %d", where, consumed, -c.over))
+		if consumed != 0 {
+			c.o.Fail("", fmt.Sprintf("%s: server counters: configured-(avail+unsent) = %d, expected 0", where, consumed))
 		}
 	}
 }
